@@ -2,6 +2,11 @@
 
 package sim
 
+import (
+	"fmt"
+	"sort"
+)
+
 // queueFlags returns cid|rid -> queue flag for every connection subscription.
 func queueFlags(w *World) map[string]int {
 	if !w.started || w.Failed != "" || w.Deadlock != "" {
@@ -17,5 +22,26 @@ func queueFlags(w *World) map[string]int {
 			out[c.CID+"|"+s.RID] = f
 		}
 	}
+	return out
+}
+
+// stalledSubscriptions: with nothing outstanding anywhere, no subscription of
+// an open connection may still be holding events back - whatever it waits for
+// (a reference to load, an access verdict) will never come.
+func stalledSubscriptions(w *World) []string {
+	if !w.started || w.Failed != "" || w.Deadlock != "" || w.mq.PendingCount() > 0 {
+		return nil
+	}
+	var out []string
+	for _, c := range w.ConnSnapshot() {
+		for _, s := range c.Subs {
+			// (the loading bit stays set for a subscription whose resource failed to
+			// load; only a pending access re-check, bit 2, is a wait for an answer)
+			if s.QueueFlag&2 != 0 && s.State != 0 {
+				out = append(out, fmt.Sprintf("a%d:%s(queue flag %d, %d events held)", w.ActorOf(c.CID), s.RID, s.QueueFlag, s.Queued))
+			}
+		}
+	}
+	sort.Strings(out)
 	return out
 }
